@@ -323,12 +323,11 @@ fn cnv_const_2coeffs<const A: usize, const A8P: usize, const B: usize>() {
         k += 1;
     }
 }
-avx_harness_u80!(c10_cnv_const_1coeff__a3_b3, cnv_const_1coeff::<3, 40, 3>());
+avx_harness_u80!(c10_cnv_const_1coeff__a2_b2, cnv_const_1coeff::<2, 32, 2>());
 avx_harness_u80!(c10_cnv_const_1coeff__a1_b3, cnv_const_1coeff::<1, 24, 3>());
 avx_harness_u80!(c10_cnv_const_1coeff__a3_b1, cnv_const_1coeff::<3, 40, 1>());
-avx_harness_u80!(c10_cnv_const_2coeffs__a3_b3, cnv_const_2coeffs::<3, 40, 3>());
+avx_harness_u80!(c10_cnv_const_2coeffs__a2_b2, cnv_const_2coeffs::<2, 32, 2>());
 avx_harness_u80!(c10_cnv_const_2coeffs__a1_b3, cnv_const_2coeffs::<1, 24, 3>());
-avx_harness_u80!(c10_cnv_const_2coeffs__a3_b2, cnv_const_2coeffs::<3, 40, 2>());
 // block moves: n = 16 (two 8-blocks per row), 2 rows x 2 columns, symbolic block and column
 fn cnv_blk_moves() {
     const N: usize = 16; const ROWS: usize = 2; const COLS: usize = 2; const TOT: usize = N * ROWS * COLS;
